@@ -58,7 +58,7 @@ def run(chk):
     chk.assumptions += ["element arithmetic is read as exact field arithmetic (rounding is NOT decided)"]
     if anchor(chk, lib, BIL, 'R4.1') is None:
         return
-    got = bilinear_identity(chk, lib, 'R4.1')
+    got = bilinear_identity(chk, lib, 'R4.1', ext=True)   # range guards are C05's subject
     if got is not None:
         chk.sample({"bilinear lane value (first 300 chars)": str(got)[:300]})
     b = anchor(chk, lib, 'interp2d::Interp2D::index_point', 'R4.2')
